@@ -174,6 +174,10 @@ def _check_accessor(res, ctx, f, tt, I, e):
     if not any(isinstance(a, tuple) and a and a[0] == "param" for a in args[0].atoms()):
         res.instances -= 1
         return
+    if f.get("impl_self_ty", {}).get("path") == "iter::Iter" and f.get("self_kind") in ("ref", "mut"):
+        # a method of the cursor iterator: its accesses are bounded by its own range [index, end), not by the vector's current length (R-ITER)
+        res.instances -= 1
+        return
     lp = None
     if ptrs:
         lp = len_path_of_mem(ptrs[0]["mem"])
@@ -197,9 +201,32 @@ def _check_accessor(res, ctx, f, tt, I, e):
     fact = cmp_fact("Lt", args[0], L0)
     if implies(e["facts"], fact):
         res.ok()
+    elif implies(e["facts"], cmp_fact("Le", args[0], L0)) and _only_range_start(I, lp, args[0], L0):
+        # `index == LEN` is allowed when the element address is only the start of the range [index, LEN) handed to a copy (empty at index == LEN): split_off(len)
+        res.ok()
     else:
         res.fail(fpath, role, "index < LEN is not established before the unchecked access %s; known: %s"
                  % (ci.path(), fmt_facts(e["facts"]) or "nothing"), span="%s:%s" % (f["span"]["file"], e.get("line")))
+
+
+def _only_range_start(I, lp, index, L0):
+    """some copy takes LEN - index elements starting at slot `index` of that vector, and no reference / handle / destructor is made from that slot"""
+    mp = (lp[0], tuple(lp[1][:-1]) + ("mem",))
+    hit = False
+    for c in I.all_effects(("COPY",)):
+        s = slot_of(c["src"])
+        if s and s[0] == mp and s[1] == index:
+            cnt = in_elems(as_poly(c["n"]), s[2], c["ety"])
+            if cnt is not None and cnt == as_poly(L0) - index:
+                hit = True
+    if not hit:
+        return False
+    for e in I.all_effects(("REFOF", "DESTROY", "WRITE", "READ", "MOVE_INTO", "CLONE_INTO")):
+        for k in ("ptr", "dst", "src", "out"):
+            s = slot_of(e.get(k)) if e.get(k) is not None else None
+            if s and s[0] == mp and s[1] == index:
+                return False
+    return True
 
 
 def _check_element_handles(res, ctx, f, tt, I):
